@@ -82,6 +82,9 @@ func (s *solo) checkPeerQ(q *peerQ) {
 		s.violate(sig, fmt.Sprintf("call uid=%x addressed to %s was delivered to capability #%d, expected #%d", q.uid, q.target.RefKey(), o.Cap, q.expectLC.N), s.log.Tail(30))
 	}
 	if o.Err != "" {
+		if o.ResultsFilled && q.plan != nil && len(q.plan.ResCaps) > 0 {
+			s.count("returns_failed_after_result_caps", 1)
+		}
 		if m.RetKind != "exception" || !strings.Contains(m.ExcReason, o.Err) {
 			s.violate("C06/return-content", fmt.Sprintf("call uid=%x: implementation failed with %q, Return is %s", q.uid, o.Err, m.String()), s.log.Tail(30))
 		}
@@ -347,7 +350,9 @@ func (s *solo) localHolders(lc *rpcbench.LocalCap) []holder {
 				resolved = q.returns > 0
 			} else {
 				o := s.w.Obs(q.uid)
-				resolved = o != nil && o.Done && o.Err == ""
+				// (an implementation that failed after it had placed its
+				// results leaves their capabilities with the answer, too)
+				resolved = o != nil && o.Done && (o.Err == "" || o.ResultsFilled)
 			}
 			if resolved {
 				ls, _ := s.planResultSources(q)
@@ -422,7 +427,7 @@ func (s *solo) importHolders(pe *peerExport) []holder {
 		if o == nil || !o.Done {
 			continue
 		}
-		if o.Err == "" && !q.finSent {
+		if (o.Err == "" || o.ResultsFilled) && !q.finSent {
 			_, ps := s.planResultSources(q)
 			for _, p := range ps {
 				if p == pe {
